@@ -37,6 +37,10 @@ def run_bytes(data, name, kind, pattern, salt):
     ev = {"ev": "cli", "lib": lib["outcome"], "exc": lib["exc"] or "", "base": name, "kind": kind, "pattern": pattern, "npics_lib": len(lib["pics"]), "exit": -1, "marker_offset": False, "marker_explain": False, "marker_hint": False, "files": [], "pairs_equal": [], "sig": ""}
     ev["offset_lib"] = -1
     ev["offset_cli"] = -2
+    # conformance known without asking the library: an unmutated corpus stream that is conformant by construction
+    from .. import corpus
+
+    ev["known"] = "conformant" if kind == "identity" and name != "validator-history" and corpus.conformant_by_construction(name) else "unknown"
     if lib["outcome"] == "reject":
         # where the library itself locates the error: offending_offset(), else the read position
         try:
